@@ -13,6 +13,7 @@ mod git_props;
 mod matcher_props;
 mod merge_props;
 mod refs_props;
+mod wc_props;
 
 fn main() {
     let prop = std::env::args().nth(1).expect("property");
@@ -29,6 +30,7 @@ fn main() {
             "c01" => merge_props::c01(&case),
             "c02" => merge_props::c02(&case),
             "c12" => refs_props::c12(&case),
+            "c26" => wc_props::c26(&case),
             "c30" => matcher_props::c30(&case),
             "c33" => git_props::c33(&case),
             _ => json!({"error": format!("unknown property {prop}")}),
